@@ -799,9 +799,14 @@ func suiteC12(s *Sink) {
 						names = append(names, r.Name())
 					}
 				}
+				held := rl // the caller keeps the list and narrows a copy of it (`essential := all; essential.FilterByName(...)`)
+				before := renderList(held)
 				rl.FilterByName(names...)
 				rl.FilterRegister(func(r veregister.Register) bool { return r.Sort()%2 == 0 })
 				rl.FilterRegister(func(veregister.Register) bool { return false })
+				if after := renderList(held); after != before {
+					s.Violate(fmt.Sprintf("SL %d mut:a-copy-of-the-list-was-filtered", id), after[:min(200, len(after))], fmt.Sprintf("product 0x%04X: the list the caller holds changed when a by-value copy of it was filtered (names / addresses / factors / decoders of the held list are no longer those of its class): %s", id, after[:min(300, len(after))]))
+				}
 			}
 		}
 	}
@@ -1588,6 +1593,34 @@ func twoLiveResults(s *Sink) {
 			mutateTypedDecode(vd) // Decode() after Fields() on the same word, then edited
 			ve, _ := fl.f.NewFieldList(raw)
 			chk(fmt.Sprintf("%s(%d): Fields() read, then Decode() edited", fl.name, raw), fieldsStr(ve.Fields()), typedDecodeStr(ve), orig)
+		}
+	}
+	// a field-list value read from a device (what a stream handler or ReadRegisterList hands out): the field set behind
+	// Value().Fields() is the caller's copy - editing it changes neither the value's rendering nor what Value().Fields() returns next
+	for name, reg := range fieldListRegisters() {
+		for _, raw := range []uint64{0x0001, 0x0205, 0x0FFF} {
+			w := 4
+			if name == "InverterWarningReasons" {
+				w = 2
+			}
+			val, err := fieldListValueVia(reg, leBytes(w, raw))
+			if err != nil {
+				continue
+			}
+			cp := val // a copy of the value, as a collector keeps one
+			origF, origS, origC := fieldsStr(val.Value().Fields()), val.String(), val.CommaString()
+			m := val.Value().Fields()
+			for f := range m {
+				if m[f] {
+					m[f] = false
+				} else {
+					delete(m, f)
+				}
+			}
+			what := fmt.Sprintf("FieldListValue %s raw=0x%X read from a device", name, raw)
+			chk(what+": Value().Fields()", fieldsStr(cp.Value().Fields()), fieldsStr(val.Value().Fields()), origF)
+			chk(what+": String()", cp.String(), val.String(), origS)
+			chk(what+": CommaString()", cp.CommaString(), val.CommaString(), origC)
 		}
 	}
 	for _, id := range []uint16{0x203, 0xA381, 0xA056, 0xA053, 0xA231} {
